@@ -28,7 +28,7 @@ ASSUMPTIONS = ["operation alphabet as listed in the evidence; typed elements are
 NP = NotPassed()
 PROBES = [
     NP, None, True, False, 0, 1, 2, 1.0, 1.5, "", "a", "ab", "abc", [], [1], [1, "a"], ["a"], {}, {"a": 1}, {"a": "s"}, {"a": 1, "b": 2}, {"b": 2},
-    {"a": "s", "b": 2}, {"z": 1}, {"a": 1, "z": 1}, {"class": 3}, {"class": "x"}, {"a": 1, "b": "s", "c": True}, {"b": 7, "z": 0}, {"a": 1, "b": 2, "c": 3, "d": 4},
+    {"a": "s", "b": 2}, {"z": 1}, {"a": 1, "z": 1}, {"class": 3}, {"class": "x"}, {"class_": "x"}, {"class_": 3, "class": "x"}, {"a": 1, "b": "s", "c": True}, {"b": 7, "z": 0}, {"a": 1, "b": 2, "c": 3, "d": 4},
 ]
 
 ELEMS = {
@@ -115,6 +115,23 @@ def validate(v):
     return history.Op("validate(%r)" % (v,), apply)
 
 
+# payload objects that live as long as the history does: the caller validates the SAME dict again later
+SHARED_ORIG = {"shared{b}": {"b": 2}, "shared{}": {}}
+_SHARED = {}
+
+
+def reset_shared():
+    _SHARED.clear()
+    _SHARED.update(copy.deepcopy(SHARED_ORIG))
+
+
+def validate_shared(name):
+    def apply(live):
+        impl.do_call(live, _SHARED[name], copy_value=False)
+
+    return history.Op("validate(%s, the same object again)" % name, apply)
+
+
 def observer(name, fn):
     """Operations that only LOOK at the object (serializers, repr, ==): they must not change how it validates."""
     def apply(live):
@@ -136,12 +153,14 @@ def _observers():
     ]
 
 
-VALIDATE_OPS = [validate(v) for v in ({"a": 1}, {"a": "s", "b": 2}, "ab", 0)] + _observers()
+VALIDATE_OPS = [validate(v) for v in ({"a": 1}, {"a": "s", "b": 2}, "ab", 0)] + [validate_shared(n) for n in SHARED_ORIG] + _observers()
 
 PROP_OPS = [
     prop_set("a", ("Integer()", False, None)),
     prop_set("a", ("String()", True, None)),
     prop_set("class_", ("Integer(default=1)", True, "class")),
+    prop_set("class_", ("String()", True, None)),  # replaces a renamed property by one that names nothing: JSON name class_
+    prop_set("a", ("Integer()", False, "b")),  # attribute a now stands for the JSON name b
     prop_set("b", ("String(default='d')", False, None)),
     prop_del("a"),
     prop_del("b"),
@@ -212,6 +231,14 @@ def build_kind(kind):
             ref = {"kind": "model", "name": "M", "kw": {"minProperties": (lambda: 1)}, "props": {"a": ("Integer()", True, None), "b": ("String(default='d')", False, None)}}
             return M, ref
         return b, CLASS_KW_OPS + PROP_OPS + VALIDATE_OPS
+    if kind == "model_default":
+        def b():
+            class M(Object, default={}, maxProperties=1):
+                a = Property(Integer())
+                b = Property(String(default="d"))
+            ref = {"kind": "model", "name": "M", "kw": {"default": (lambda: {}), "maxProperties": (lambda: 1)}, "props": {"a": ("Integer()", False, None), "b": ("String(default='d')", False, None)}}
+            return M, ref
+        return b, CLASS_KW_OPS + PROP_OPS + VALIDATE_OPS + [validate(NP), set_kw("default", "{'a': 1}", lambda: {"a": 1}), set_kw("default", "{}", lambda: {})]
     if kind == "subclass":
         def b():
             class M(Object, minProperties=1, required=["k"]):
@@ -224,7 +251,7 @@ def build_kind(kind):
     raise KeyError(kind)
 
 
-KINDS = ["element", "element_props", "string", "array", "model", "subclass"]
+KINDS = ["element", "element_props", "string", "array", "model", "subclass", "model_default"]
 
 
 def vector(obj):
@@ -241,12 +268,17 @@ def canon_vec(vec):
 
 
 def run_shard(st, kind, first, depth):
-    build, ops = build_kind(kind)
+    build0, ops = build_kind(kind)
+
+    def build():
+        reset_shared()
+        return build0()
+
     live0, ref0 = build()
     vec0 = [k for k, _ in vector(live0)]
 
     def key(live, ref):
-        return (impl.snapshot(live), repr(sorted((k, repr(v() if callable(v) else v)) for k, v in ref["kw"].items())), repr(ref["props"]))
+        return (impl.snapshot(live), repr(sorted((k, repr(v() if callable(v) else v)) for k, v in ref["kw"].items())), repr(ref["props"]), repr(impl.canon_result(_SHARED)))
 
     def check(live, ref, hist):
         try:
@@ -274,6 +306,12 @@ def run_shard(st, kind, first, depth):
                     break
         except Exception as exc:
             st.notes["absolute-oracle-unavailable:" + type(exc).__name__] += 1
+        # the payload objects the history has already validated, against pristine copies on the fresh object
+        for name, orig in SHARED_ORIG.items():
+            lk, lr = impl.do_call(live, _SHARED[name], copy_value=False)
+            tk, tr = impl.do_call(twin, copy.deepcopy(orig))
+            if (lk, impl.canon_result(lr) if lk == impl.ACCEPT else None) != (tk, impl.canon_result(tr) if tk == impl.ACCEPT else None):
+                st.violation("earlier-call-influences-verdict:same-payload-object", "%s after %s: validating %s (the object validated earlier in the history, now %r) gives %s, a fresh object on a pristine copy gives %s" % (kind, [ops[j].name for j in hist], name, _SHARED[name], lk, tk), {"kind": kind, "history": [ops[j].name for j in hist], "payload": name}, rank=len(hist))
         st.add("traces")
         if [k for k, _ in lv] != vec0:
             st.add("nontrivial")
